@@ -57,6 +57,7 @@ def check(repo: Repo, rep: Report) -> None:
     rep.rule("W1-wrap-coverage", "schedule/schedule_relative/schedule_absolute pass self._wrap(action) and forward the other arguments", floor=6)
     rep.rule("H1-handler-semantics", "try/except Exception around the action; handler(ex); re-raise iff falsy; swallow otherwise", floor=8)
     rep.rule("R1-recursive", "the scheduler handed to the action is the recursive CatchScheduler wrapper with the same handler", floor=3)
+    rep.rule("R2-cache-key", "the cached recursive wrapper is rebuilt when absent and when the inner scheduler differs from its key", floor=3)
     rep.rule("P1-periodic", "periodic: failed latch dominates later ticks and is set before the handler runs; swallow disposes the periodic subscription", floor=4)
     cls = repo.fn(C, "CatchScheduler")
     for mname, fwd in (("schedule", []), ("schedule_relative", ["duetime"]), ("schedule_absolute", ["duetime"])):
@@ -109,6 +110,41 @@ def check(repo: Repo, rep: Report) -> None:
             rep.ob("R1-recursive", grw, f"`{short(s.node)}` stores a CatchScheduler clone", u(s.node.value) in clones,
                    f"`{short(s.node)}` stores something that is not the catching clone as a recursive wrapper: actions scheduled from deeper "
                    f"recursion levels receive the raw scheduler and their exceptions bypass the handler")
+    # the cached wrapper is keyed by the scheduler it wraps: it is rebuilt whenever there is none yet AND whenever the
+    # scheduler handed to the action is not the one it was built over (thread schedulers hand out a fresh one per action)
+    from ..rules import guards_hold_when
+    from ..astutil import compare_parts
+    par = grw.params[1]
+
+    def leaf(stale, missing):
+        def val(e):
+            cp = compare_parts(e)
+            if cp:
+                l_, op, r_ = cp
+                if {l_, r_} == {"self._recursive_original", par}:
+                    return stale if op in ("!=", "is not") else (None if stale is None else not stale) if op in ("==", "is") else None
+                if l_ == "self._recursive_wrapper" and r_ == "None":
+                    return missing if op in ("is", "==") else (None if missing is None else not missing) if op in ("is not", "!=") else None
+                return None
+            if u(e) == "self._recursive_wrapper":
+                return None if missing is None else not missing
+            return None
+        return val
+    stores = [s for s in sites(grw) if isinstance(s.node, ast.Assign) and u(s.node.targets[0]) == "self._recursive_wrapper"]
+    for s in stores:
+        rep.ob("R2-cache-key", grw, f"`{short(s.node)}` runs whenever the wrapped scheduler changed",
+               guards_hold_when(grw, s.ctx, leaf(True, None)),
+               f"the cached recursive wrapper is not rebuilt when `{par}` differs from the scheduler it was built over: an action "
+               f"run by a different inner scheduler (a new thread per action) schedules its recursive work on the stale one")
+        rep.ob("R2-cache-key", grw, f"`{short(s.node)}` runs whenever no wrapper exists yet",
+               guards_hold_when(grw, s.ctx, leaf(None, True)),
+               "no recursive wrapper is built on first use: the action receives None as its scheduler")
+        keys = [k for k in sites(grw) if isinstance(k.node, ast.Assign) and u(k.node.targets[0]) == "self._recursive_original"
+                and u(k.node.value) == par and k.ctx.guards == s.ctx.guards]
+        rep.ob("R2-cache-key", grw, "the key is recorded with the wrapper", bool(keys),
+               f"the rebuilt wrapper is not recorded against `{par}`: the cache never matches (or matches the wrong scheduler)")
+    if not stores:
+        rep.ob("R2-cache-key", grw, "the recursive wrapper is cached", False, "no store of the recursive wrapper cache")
     # periodic
     per = repo.fn(C, "CatchScheduler.schedule_periodic.periodic")
     sp = repo.fn(C, "CatchScheduler.schedule_periodic")
